@@ -142,6 +142,71 @@ func runC11(c *core.Ctx) {
 	c.Rule("C11.reset", resetText, 10)
 	checkReset(c)
 
+	c.Rule("C11.nodeoutside", "a builder or assembler never makes a node out of its own memory: no method of a NodeBuilder/NodeAssembler/MapAssembler/ListAssembler type converts the address of one of the receiver's own fields (at any depth, without loading a pointer on the way) into a datamodel.Node - such a node would change when the builder is reset or reused", 1)
+	{
+		nodeI := p.Iface("datamodel", "Node")
+		var roles []*types.Interface
+		for _, n := range []string{"NodeBuilder", "NodeAssembler", "MapAssembler", "ListAssembler"} {
+			if i := p.Iface("datamodel", n); i != nil {
+				roles = append(roles, i)
+			}
+		}
+		nchecked := 0
+		for _, fn := range p.ModFns {
+			pk := core.FuncPkg(fn)
+			if pk == nil || !libraryPkg(core.RelPkg(pk.Path())) || len(fn.Blocks) == 0 || fn.Synthetic != "" || fn.Signature.Recv() == nil || nodeI == nil {
+				continue
+			}
+			rt := fn.Signature.Recv().Type()
+			isRole := false
+			for _, ri := range roles {
+				if types.Implements(rt, ri) {
+					isRole = true
+				} else if _, isPtr := rt.(*types.Pointer); !isPtr && types.Implements(types.NewPointer(rt), ri) {
+					isRole = true
+				}
+			}
+			if !isRole || len(fn.Params) == 0 {
+				continue
+			}
+			recv := fn.Params[0]
+			if _, isPtr := recv.Type().Underlying().(*types.Pointer); !isPtr {
+				continue
+			}
+			nchecked++
+			bad := ""
+			var pos token.Pos
+			core.Instrs(fn, func(in ssa.Instruction) {
+				mi, ok := in.(*ssa.MakeInterface)
+				if !ok || !types.Implements(mi.X.Type(), nodeI) {
+					return
+				}
+				if !types.Implements(mi.Type(), nodeI) && !types.IsInterface(mi.Type()) {
+					return
+				}
+				// the converted pointer is the address of a field of the receiver
+				a := mi.X
+				steps := 0
+				for {
+					if fa, ok := a.(*ssa.FieldAddr); ok {
+						a = fa.X
+						steps++
+						continue
+					}
+					break
+				}
+				if steps > 0 && a == ssa.Value(recv) {
+					bad = "the address of the receiver's field " + core.FieldName(mi.X)
+					pos = mi.Pos()
+				}
+			})
+			if bad != "" {
+				c.Fail(core.FuncKey(fn)+"#node-from-own-field", p.Pos(pos), "a node is made of "+bad+": the node handed out lives inside the builder and changes when the builder is reset or used again")
+			}
+		}
+		c.Check(nchecked > 50, "library#builder-methods-scanned", "-", fmt.Sprintf("%d builder/assembler methods scanned, none makes a node out of its own fields", nchecked), "fewer builder/assembler methods than expected were found")
+	}
+
 	c.Rule("C11.sealed", "in every assembler AssignNode that copies a same-type node by value into its work-in-progress node (sharing slices and maps), every path from that copy to a return stores the finished state (the constant Finish stores) into the assembler's state field", 2)
 	naIface := p.Iface("datamodel", "NodeAssembler")
 	for _, im := range p.Implementers(naIface, storagePkgs) {
@@ -209,37 +274,8 @@ func runC11(c *core.Ctx) {
 		}
 	}
 
-	c.Rule("C11.decoderbytes", "the byte slices (and strings) that the bundled decoders hand to AssignBytes never come out of storage the codec keeps and reuses: the value does not derive from a sync.Pool, a package-level variable or a captured buffer (basicnode keeps the slice without copying, so a recycled buffer would change a finished node)", 3)
-	for _, fn := range p.ModFns {
-		pk := core.FuncPkg(fn)
-		if pk == nil || !strings.HasPrefix(core.RelPkg(pk.Path()), "codec") || len(fn.Blocks) == 0 {
-			continue
-		}
-		n := 0
-		for _, ci := range core.Calls(fn) {
-			name, ok := assemblerCall(ci)
-			if !ok || name != "AssignBytes" {
-				continue
-			}
-			n++
-			bad := ""
-			for w := range core.BackSlice(ci.Common().Args[0], core.SliceOpts{ThroughCalls: true, Stores: true}) {
-				switch x := w.(type) {
-				case *ssa.Call:
-					if core.IsMethod(x, "sync", "Pool", "Get") {
-						bad = "a sync.Pool"
-					}
-				case *ssa.Global:
-					if p.InModuleGlobal(x) {
-						bad = "package-level variable " + x.Name()
-					}
-				case *ssa.FreeVar:
-					bad = "a captured variable"
-				}
-			}
-			c.Check(bad == "", fmt.Sprintf("%s#AssignBytes%d", core.FuncKey(fn), n), p.Pos(ci.Pos()), "assigned bytes are owned by the decode call", "the bytes handed to the assembler come from "+bad+": the buffer is reused by a later decode while the finished node still refers to it")
-		}
-	}
+	c.Rule("C11.decoderbytes", decoderBytesText, 4)
+	checkDecoderBytes(c)
 
 	c.Rule("C11.pure", "every method of the datamodel.Node read API (plus AsLargeBytes / AsUint) of every Node implementation in library packages - and what it statically calls in its own package - performs no non-fresh heap write except into a value it allocated, calls no reflect.Value.Set*, and reads a receiver-held io.Reader only after Seek(0, io.SeekStart) on it", 300)
 	nodeIface := p.Iface("datamodel", "Node")
@@ -584,4 +620,70 @@ func checkReset(c *core.Ctx) {
 		c.Check(bad == "", core.FuncKey(fn)+"#reset", p.Pos(fn.Pos()), "Reset only re-points the builder", bad)
 	}
 
+}
+
+const decoderBytesText = "the byte slices (and strings) that the bundled decoders hand to AssignBytes never come out of storage that is kept and reused: the value does not derive from a sync.Pool, a package-level variable or a captured buffer (basicnode keeps the slice without copying, so a recycled buffer would change a finished node); and the reader the link system hands to a decoder is not such recycled storage either (a decoder may keep the bytes of a reader that exposes them: codec/raw does)"
+
+// checkDecoderBytes decides the decoderbytes rule (shared by C11 - a finished node never changes - and C05 - what is
+// loaded equals what was stored, also for the node loaded before the next load).
+func checkDecoderBytes(c *core.Ctx) {
+	p := c.P
+	recycled := func(v ssa.Value) string {
+		bad := ""
+		for w := range core.BackSlice(v, core.SliceOpts{ThroughCalls: true, Stores: true}) {
+			switch x := w.(type) {
+			case *ssa.Call:
+				if core.IsMethod(x, "sync", "Pool", "Get") {
+					bad = "a sync.Pool"
+				}
+			case *ssa.Global:
+				if p.InModuleGlobal(x) {
+					bad = "package-level variable " + x.Name()
+				}
+			case *ssa.FreeVar:
+				bad = "a captured variable"
+			}
+		}
+		return bad
+	}
+	for _, fn := range p.ModFns {
+		pk := core.FuncPkg(fn)
+		if pk == nil || !strings.HasPrefix(core.RelPkg(pk.Path()), "codec") || len(fn.Blocks) == 0 {
+			continue
+		}
+		n := 0
+		for _, ci := range core.Calls(fn) {
+			name, ok := assemblerCall(ci)
+			if !ok || name != "AssignBytes" {
+				continue
+			}
+			n++
+			bad := recycled(ci.Common().Args[0])
+			c.Check(bad == "", fmt.Sprintf("%s#AssignBytes%d", core.FuncKey(fn), n), p.Pos(ci.Pos()), "assigned bytes are owned by the decode call", "the bytes handed to the assembler come from "+bad+": the buffer is reused by a later decode while the finished node still refers to it")
+		}
+	}
+	// the input of a decoder chosen by the link system
+	nd := 0
+	for _, fn := range p.ModFns {
+		pk := core.FuncPkg(fn)
+		if pk == nil || core.RelPkg(pk.Path()) != "linking" || len(fn.Blocks) == 0 || fn.Synthetic != "" {
+			continue
+		}
+		for _, ci := range core.Calls(fn) {
+			cc := ci.Common()
+			if cc.IsInvoke() || cc.StaticCallee() != nil || len(cc.Args) != 2 {
+				continue
+			}
+			nt := namedOfType(cc.Value.Type())
+			if nt == nil || nt.Obj().Name() != "Decoder" || nt.Obj().Pkg() == nil || core.RelPkg(nt.Obj().Pkg().Path()) != "codec" {
+				continue
+			}
+			nd++
+			bad := recycled(cc.Args[1])
+			c.Check(bad == "", fmt.Sprintf("%s#decoder-input%d", core.FuncKey(fn), nd), p.Pos(ci.Pos()), "the decoder reads from storage owned by this load", "the reader handed to the decoder comes from "+bad+": a decoder that keeps the reader's bytes (codec/raw does for readers exposing Bytes()) makes the loaded node alias a buffer the next load overwrites")
+		}
+	}
+	if nd == 0 {
+		c.Undecided("linking#decoder-call", "-", "no call of a codec.Decoder value found in package linking")
+	}
 }
